@@ -214,7 +214,8 @@ static void sys_apply(void *p, int op, bool check, const struct seqx_hist *h)
 			rc = pfx_table_remove(&s->real, &pr);
 			mrc = m_remove(&s->model, r);
 		}
-		if (check && rc != mrc) {
+		/* return codes are C02's clause; the C01 check only judges validation answers */
+		if (check && rc != mrc && strcmp(PROP, "C01")) {
 			snprintf(key, sizeof(key), "%s|%s|%s|rc=%s|want=%s", PROP, MODE, is_add ? "add" : "remove", rc_name(rc),
 				 rc_name(mrc));
 			snprintf(what, sizeof(what), "%s returned %s where the set semantics require %s (last operation of the history)",
